@@ -255,12 +255,12 @@ def jobs(tier):
     for size in ([(1, 1), (1, 2)] if q else [(1, 1), (1, 2), (2, 1)]):
         js.append(transcription_nested(size, False))
     js.append(transcription_nested((1, 2), True))
-    for size in ([(1, 1)] if q else [(1, 1), (1, 2), (2, 1)]):
+    for size in ([(1, 1)] if q else [(1, 1), (1, 2)]):
         js.append(transcription_strict_fine(size))
     import itertools
     for moved in itertools.combinations(range(5), 2):
         js.append(continuity_displaced(5, moved))
     if not q:
-        for moved in [(0, 2, 4), (1, 2, 3), (1, 3, 5), (0, 3, 5)]:
+        for moved in [(0, 2, 4), (1, 3, 5)]:
             js.append(continuity_displaced(6, moved))
     return js
